@@ -2,10 +2,10 @@
 from harness import qcommon
 from vlib.runner import CheckSpec, Cube
 from vlib.stubs import qsim
-from vlib.stubs.qsim import ADD, DISCONNECT, FINISH, KILL, PULL, RUN, SETINFO, TICK, WAIT
+from vlib.stubs.qsim import ADD, DISCONNECT, FINISH, KILL, PULL, READD, RUN, SETINFO, TICK, WAIT, WATCHDOG
 
 PROPS = ("C16", "C17", "C18")  # the C16/C17 oracles are only consulted after a restart (qsim.Sim.want)
-FULL = (ADD, PULL, RUN, FINISH, KILL, TICK, DISCONNECT, WAIT, SETINFO)
+FULL = (ADD, PULL, RUN, FINISH, KILL, TICK, DISCONNECT, WAIT, SETINFO, READD, WATCHDOG)
 
 
 def h_bmc(**kw):
